@@ -36,7 +36,11 @@ type scopeT struct {
 	Kind   string `json:"kind"`
 	Parent int    `json:"parent"`
 	Ev     bool   `json:"ev"`
+	Wrap   string `json:"wrap"` // files: none | cjs-m | cjs-e | cjs-r | lazy-r | lazy-i
 }
+
+func isCJS(w string) bool { return strings.HasPrefix(w, "cjs-") }
+
 type declT struct {
 	Scope int    `json:"scope"`
 	Kind  string `json:"kind"`
@@ -88,6 +92,9 @@ type program struct {
 	HasEval  bool
 	Expect   map[string]interface{} // reference id -> value the specification predicts for the deferred read
 	NFiles   int
+	Wrapped  bool                // some file has a wrapper kind other than "none"
+	FTypes   map[string]string   // file -> "esm" | "cjs" (how the reference loader of the Node runner treats it)
+	CJSNames map[string][]string // CommonJS file -> its export names
 	extraRef int
 }
 
@@ -296,23 +303,72 @@ func render(c *caseT, splitting bool) *program {
 		}
 	}
 	extra := 1000
+	p.FTypes = map[string]string{}
+	p.CJSNames = map[string][]string{}
+	wrapOf := func(f int) string {
+		if w := c.Scopes[f-1].Wrap; w != "" {
+			return w
+		}
+		return "none"
+	}
 	for f := 1; f <= nf; f++ {
 		sb := &strings.Builder{}
 		g.sb = sb
 		name := fmt.Sprintf("f%d.js", f)
+		wf := wrapOf(f)
+		p.FTypes[name] = "esm"
+		if isCJS(wf) {
+			p.FTypes[name] = "cjs"
+			p.Wrapped = true
+			sb.WriteString("\"use strict\";\n") // the model's module mode is strict code throughout
+		} else if wf != "none" {
+			p.Wrapped = true
+		}
 		var tail []string
 		if !c.Sloppy {
-			// every file imports the later ones: for effect and by name under
-			// local names outside the alphabet
+			// every file loads the later ones, for effect and by name (under local names
+			// outside the alphabet), in the way that gives the later file its wrapper kind:
+			//   none          import "./fj.js"; import { t as ij_t } from "./fj.js"
+			//   cjs-m, cjs-e  the same import statements (the imported file is a CommonJS module)
+			//   cjs-r         require("./fj.js") for effect (the file has no export syntax at all)
+			//   lazy-r        const __rj = require("./fj.js") of an ES module (wrapped in __esm)
+			//   lazy-i        import("./fj.js").then(...) without code splitting (wrapped in __esm)
+			// a CommonJS file cannot use import statements: it loads everything with require()
+			var body []string
 			for j := f + 1; j <= nf; j++ {
-				fmt.Fprintf(sb, "import \"./f%d.js\";\n", j)
-				for _, t := range tops[j] {
+				wj := wrapOf(j)
+				read := func(t top, expr string) {
 					extra++
-					local := fmt.Sprintf("i%d_%s", j, strings.ReplaceAll(t.name, "$", "S"))
-					fmt.Fprintf(sb, "import { %s as %s } from \"./f%d.js\";\n", t.name, local, j)
-					tail = append(tail, fmt.Sprintf("__L(%d, %s, () => %s);", extra, local, local))
+					tail = append(tail, fmt.Sprintf("__L(%d, %s, () => %s);", extra, expr, expr))
 					p.Expect[fmt.Sprint(extra)] = float64(t.mark)
 				}
+				switch {
+				case wj == "lazy-i":
+					var reads []string
+					for _, t := range tops[j] {
+						extra++
+						reads = append(reads, fmt.Sprintf("__L(%d, __n.%s, () => __n.%s);", extra, t.name, t.name))
+						p.Expect[fmt.Sprint(extra)] = float64(t.mark)
+					}
+					body = append(body, fmt.Sprintf("import(\"./f%d.js\").then((__n) => { %s });", j, strings.Join(reads, " ")))
+				case wj == "cjs-r":
+					body = append(body, fmt.Sprintf("require(\"./f%d.js\");", j))
+				case wj == "lazy-r" || isCJS(wf):
+					body = append(body, fmt.Sprintf("const __r%d = require(\"./f%d.js\");", j, j))
+					for _, t := range tops[j] {
+						read(t, fmt.Sprintf("__r%d.%s", j, t.name))
+					}
+				default:
+					fmt.Fprintf(sb, "import \"./f%d.js\";\n", j)
+					for _, t := range tops[j] {
+						local := fmt.Sprintf("i%d_%s", j, strings.ReplaceAll(t.name, "$", "S"))
+						fmt.Fprintf(sb, "import { %s as %s } from \"./f%d.js\";\n", t.name, local, j)
+						read(t, local)
+					}
+				}
+			}
+			for _, b := range body {
+				sb.WriteString(b + "\n")
 			}
 		}
 		g.body(f, "", false)
@@ -324,7 +380,20 @@ func render(c *caseT, splitting bool) *program {
 			for _, t := range tops[f] {
 				ex = append(ex, t.name)
 			}
-			fmt.Fprintf(sb, "export { %s };\n", strings.Join(ex, ", "))
+			switch wf {
+			case "cjs-m":
+				fmt.Fprintf(sb, "module.exports = { %s };\n", strings.Join(ex, ", "))
+				p.CJSNames[name] = ex
+			case "cjs-e":
+				for _, n := range ex {
+					fmt.Fprintf(sb, "exports.%s = %s;\n", n, n)
+				}
+				p.CJSNames[name] = ex
+			case "cjs-r":
+				p.CJSNames[name] = nil
+			default:
+				fmt.Fprintf(sb, "export { %s };\n", strings.Join(ex, ", "))
+			}
 		} else {
 			for _, t := range tops[f] {
 				p.Probes = append(p.Probes, t.name)
@@ -424,7 +493,7 @@ func allConfigs0(c *caseT, p *program) []config {
 			out = append(out, config{Mode: "build", Format: f, Minify: m, Target: "es2019"})
 		}
 	}
-	if p.NFiles >= 2 {
+	if p.NFiles >= 2 && !p.Wrapped { // "lazy-i" is import() without code splitting
 		for _, m := range bools {
 			for _, k := range bools {
 				out = append(out, config{Mode: "build", Format: "esm", Minify: m, KeepNames: k, Splitting: true})
@@ -537,14 +606,16 @@ func compile(r *core.Run, dir string, p *program, cf config) compiled {
 // execution by Node
 
 type job struct {
-	ID         string            `json:"id"`
-	Kind       string            `json:"kind"`
-	Files      map[string]string `json:"files"`
-	Entries    []string          `json:"entries"`
-	Globals    []string          `json:"globals"`
-	WNames     []string          `json:"wnames"`
-	Probes     []string          `json:"probes"`
-	GlobalName string            `json:"globalName"`
+	ID         string              `json:"id"`
+	Kind       string              `json:"kind"`
+	Files      map[string]string   `json:"files"`
+	Entries    []string            `json:"entries"`
+	Globals    []string            `json:"globals"`
+	WNames     []string            `json:"wnames"`
+	Probes     []string            `json:"probes"`
+	GlobalName string              `json:"globalName"`
+	FTypes     map[string]string   `json:"ftypes,omitempty"`
+	CJSNames   map[string][]string `json:"cjsNames,omitempty"`
 }
 type jobResult struct {
 	ID      string                            `json:"id"`
@@ -851,7 +922,7 @@ func process(r *core.Run, units []*unit, st *stats) {
 		for split, p := range u.progs {
 			for _, w := range wmodes(p) {
 				jobs = append(jobs, job{ID: fmt.Sprintf("%d/in/%v/%s", u.idx, split, w), Kind: inputKind(u.c), Files: p.Files, Entries: p.Entries,
-					Globals: p.Globals, WNames: wnames(u.c, w), Probes: p.Probes})
+					Globals: p.Globals, WNames: wnames(u.c, w), Probes: p.Probes, FTypes: p.FTypes, CJSNames: p.CJSNames})
 			}
 		}
 		for k, o := range u.outs {
@@ -1101,9 +1172,22 @@ func replay(r *core.Run) {
 	u.configs = allConfigs(&c, render(&c, false))
 	st := &stats{byCoinc: map[string]int{}, byConfig: map[string]int{}, rejectedWhy: map[string]int{}}
 	process(r, []*unit{u}, st)
+	dump := os.Getenv("VERIF_C15_DUMP") // developer knob: print the input and every output
+	if dump != "" {
+		for name, src := range u.progs[false].Files {
+			fmt.Fprintf(os.Stderr, "=== input %s\n%s", name, src)
+		}
+	}
 	for k, cf := range u.configs {
 		if u.outs[k].Err == "" {
 			fmt.Fprintf(os.Stderr, "--- %s\n", cf)
+			if dump != "" && (dump == "all" || dump == cf.String()) {
+				for name, src := range u.outs[k].Files {
+					fmt.Fprintf(os.Stderr, "=== output %s\n%s", name, src)
+				}
+			}
+		} else {
+			fmt.Fprintf(os.Stderr, "--- %s: esbuild error: %s\n", cf, u.outs[k].Err)
 		}
 	}
 }
@@ -1130,7 +1214,7 @@ func Run(r *core.Run) {
 	if r.Thorough() {
 		designs = []string{"Rename.design-module2.cfg", "Rename.design-script2.cfg"} // supersets of the quick ones
 	}
-	only := os.Getenv("VERIF_C15_ONLY") // developer knob: "trees" | "props"
+	only := os.Getenv("VERIF_C15_ONLY") // developer knob: "trees" | "props" | "cex"
 	if only != "" {
 		designs = nil
 	}
@@ -1146,15 +1230,14 @@ func Run(r *core.Run) {
 	// nested name pinned by "with" is not reserved), enumerated exhaustively for a small
 	// bound and replayed under every configuration: a counterexample on the model
 	// alone is no verdict, only the real code's behaviour is
+	// (4b) the same for the hypothetical model ReserveWrappedFree = FALSE (free names used
+	// inside CommonJS-wrapped files are not reserved): its counterexamples are exactly
+	// the trees on which the reservation matters; the real code must pass them
 	cexSt := &stats{byCoinc: map[string]int{}, byConfig: map[string]int{}, rejectedWhy: map[string]int{}}
-	wg.Add(1)
-	go func() {
-		defer wg.Done()
-		if only != "" {
-			return
-		}
+	cexModSt := &stats{byCoinc: map[string]int{}, byConfig: map[string]int{}, rejectedWhy: map[string]int{}}
+	cexRun := func(cfg string, base int, st *stats) {
 		var units []*unit
-		res, err := tlcrun.Run(r, tlcrun.Options{Module: "Rename", Config: "Rename.cex-script.cfg", Workers: 2, TimeoutSec: 1400, NoDeadlock: true,
+		res, err := tlcrun.Run(r, tlcrun.Options{Module: "Rename", Config: cfg, Workers: 2, TimeoutSec: 1400, NoDeadlock: true,
 			OnCase: func(raw []byte) {
 				cp := append([]byte{}, raw...)
 				var c caseT
@@ -1163,22 +1246,35 @@ func Run(r *core.Run) {
 				}
 			}})
 		if err != nil {
-			r.Infra("counterexample enumeration failed: %v", err)
+			r.Infra("counterexample enumeration %s failed: %v", cfg, err)
 			return
 		}
-		r.Logf("TLC Rename/Rename.cex-script.cfg: %d states, %d counterexamples of the as-implemented model, %.1fs", res.Distinct, len(units), res.Wall.Seconds())
+		r.Logf("TLC Rename/%s: %d states, %d counterexamples of the model variant, %.1fs", cfg, res.Distinct, len(units), res.Wall.Seconds())
 		sort.Slice(units, func(i, j int) bool { return units[i].hash < units[j].hash })
 		for i, u := range units {
-			u.idx = 1000000 + i
+			u.idx = base + i
 			u.configs = allConfigs(u.c, render(u.c, false))
 		}
-		process(r, units, cexSt)
+		process(r, units, st)
+	}
+	wg.Add(1)
+	go func() {
+		defer wg.Done()
+		if only != "" && only != "cex" {
+			return
+		}
+		cexRun("Rename.cex-script.cfg", 1000000, cexSt)
+		cexMod := "Rename.cex-module.cfg"
+		if r.Thorough() {
+			cexMod = "Rename.cex-module2.cfg" // a superset
+		}
+		cexRun(cexMod, 2000000, cexModSt)
 	}()
 	// (3) mangled properties (scenarios enumerated by TLC, records validated by TLC)
 	wg.Add(1)
 	go func() {
 		defer wg.Done()
-		if only != "trees" {
+		if only != "trees" && only != "cex" {
 			runProps(r)
 		}
 	}()
@@ -1199,7 +1295,7 @@ func Run(r *core.Run) {
 		fmt.Sscan(v, &maxRounds)
 	}
 	nconf := r.Pick(3, 8)
-	if only == "props" {
+	if only == "props" || only == "cex" {
 		maxRounds = 0
 	}
 	for round := 0; round < maxRounds; round++ {
@@ -1224,6 +1320,11 @@ func Run(r *core.Run) {
 			w = walks * 2
 		}
 		gens := []genSpec{{"Rename.gen-module.cfg", procs, w}, {"Rename.gen-script.cfg", procs, w}}
+		if v := os.Getenv("VERIF_C15_GEN"); v == "module" { // developer knob
+			gens = gens[:1]
+		} else if v == "script" {
+			gens = gens[1:]
+		}
 		core.Parallel(len(gens), 2, func(i int) { generate(r, gens[i], r.Seed*100+int64(round), sink) })
 		r.Logf("round %d: TLC generated %d new trees in %.0fs", round+1, len(units), time.Since(t0).Seconds())
 		sort.Slice(units, func(i, j int) bool { return units[i].hash < units[j].hash }) // arrival order of the TLC processes does not matter
@@ -1238,7 +1339,7 @@ func Run(r *core.Run) {
 			st.configsRun, st.executions, r.Violations(), st.drift, time.Since(t0).Seconds())
 	}
 	wg.Wait()
-	r.AddTraces(int64(st.executions + cexSt.executions))
+	r.AddTraces(int64(st.executions + cexSt.executions + cexModSt.executions))
 	r.Set("trees", st.cases)
 	r.Set("configurations_run", st.configsRun)
 	r.Set("configurations_rejected_by_esbuild", st.rejected)
@@ -1250,7 +1351,9 @@ func Run(r *core.Run) {
 	r.Set("model_counterexamples_reproduced_by_real_code", st.modelAgreed+cexSt.modelAgreed)
 	r.Set("model_counterexamples_not_reproduced", st.modelOnly+cexSt.modelOnly)
 	r.Set("model_counterexample_trees_replayed", cexSt.cases)
-	st.executions += cexSt.executions
+	r.Set("wrapped_free_name_trees_replayed", cexModSt.cases)
+	r.Set("wrapped_free_name_configurations_run", cexModSt.configsRun)
+	st.executions += cexSt.executions + cexModSt.executions
 	r.Set("node_executions", st.executions)
 	r.Set("rule", "case = one scope tree generated by TLC from Rename.tla (-simulate, seeded) rendered as a marker program and compiled by the real esbuild under several configurations (mode x format x minify-identifiers x keep-names x target x splitting); distinct by the hash of the tree; non-trivial = the tree has at least one name coincidence computed by the specification (shadowing candidate, duplicate top-level name across files, a name the number renamer has to change or that equals a generated numbered name, a declared or free name that equals a minified name, a declared name equal to a free name)")
 	if st.drift > 0 && st.drift*50 > st.cases {
